@@ -44,7 +44,6 @@ Proof. exact detok_tok. Qed.
 (* ... and valid tokens can always be formatted (no "No tokens provided", no
    int() failure) as soon as one regular token is present. *)
 Theorem c23_format_total : forall (is_space : Z -> bool),
-  is_space 42 = false ->
   (forall c, is_ascii_digit c = true -> is_space c = false) ->
   forall sel rel t,
   valid_tokens is_space t ->
@@ -194,7 +193,10 @@ Definition ex_t : tokens :=
   mk (Some [117]) (Some [97; 47; 98]) (Some [119; 115]) (Some [50; 48; 50; 48]) (Some [99; 115])
      (Some [116; 126; 46; 120]) (Some [116; 115]) (Some [52]) (Some [106; 115]).
 Example c23_ex_valid : valid_tokens is_space_tbl ex_t.
-Proof. constructor; cbn; repeat split; vm_compute; reflexivity. Qed.
+Proof.
+  constructor; cbn; repeat split;
+    first [vm_compute; reflexivity | right; vm_compute; reflexivity].
+Qed.
 Example c23_ex_format :
   detokenise true false ex_t
   = DOk [126;117;47;97;47;98;58;119;115;47;47;50;48;50;48;58;99;115;47;116;126;46;120;58;116;115;
